@@ -240,6 +240,83 @@ def check(ctx):
                               'the container no longer hands every child (%s) to the child\'s own check: a component that is skipped is never rejected, so an ill-typed or '
                               'out-of-constraint value reaches the codec and ends as bytes or as a foreign exception without the path' % (coll or 'the selected member'), stmt='recursion')
 
+    # ---- R7: what the type check lets through supports what is done with it next.  A small type inference on every encode method of the type checker: the
+    #      isinstance tests that must hold on the non-raising paths give, per component of the value (data, data[0], data[1]), the set of admitted Python types; a
+    #      comparison or arithmetic on that component afterwards needs numbers only, len() needs a sized type -- otherwise a value the check lets through raises a
+    #      foreign TypeError inside the checker.
+    ctx.rule('C12.R7', 'type checker: the types an isinstance test admits for a component support the operations applied to that component afterwards')
+    TC = 'asn1tools/codecs/type_checker.py'
+    tcm = model.mod(TC)
+    NUMERIC = {'int', 'float', 'bool', 'long'}
+    SIZED = {'bytes', 'bytearray', 'str', 'unicode', 'list', 'tuple', 'dict', 'set'}
+
+    def type_names(e, depth=0):
+        """names of the types an isinstance() second argument denotes, or None"""
+        if isinstance(e, ast.Name):
+            r_ = tcm.resolve_name(e.id)
+            if isinstance(r_, tuple) and r_[0] == 'const' and depth < 3:
+                return type_names(r_[1], depth + 1)
+            return {e.id}
+        if isinstance(e, ast.Tuple):
+            out_ = set()
+            for x in e.elts:
+                t_ = type_names(x, depth)
+                if t_ is None:
+                    return None
+                out_ |= t_
+            return out_
+        if isinstance(e, ast.Attribute) and isinstance(e.value, ast.Name) and depth < 3:
+            # Cls.TYPE / self.TYPE: a class-level attribute
+            owner = tcm.classes.get(e.value.id)
+            if owner is not None:
+                a_ = owner.find_attr(e.attr)
+                if a_ is not None:
+                    return type_names(a_[1], depth + 1)
+        return None
+    n7 = 0
+    for c7 in tcm.classes.values():
+        for f7 in c7.methods.values():
+            if not f7.name.startswith('encode') or len(flow.param_names(f7)) < 2:
+                continue
+            dn = flow.param_names(f7)[1]
+            admitted = {}
+            for n_ in walk_no_nested(f7):
+                if isinstance(n_, ast.Call) and isinstance(n_.func, ast.Name) and n_.func.id == 'isinstance' and len(n_.args) == 2:
+                    comp = ast.unparse(n_.args[0])
+                    if comp == dn or comp.startswith(dn + '['):
+                        t_ = type_names(n_.args[1])
+                        if t_ is not None:
+                            admitted.setdefault(comp, set()).update(t_)
+            if not admitted:
+                continue
+            for n_ in walk_no_nested(f7):
+                need = None
+                operands = []
+                if isinstance(n_, ast.Compare) and any(isinstance(o, (ast.Lt, ast.LtE, ast.Gt, ast.GtE)) for o in n_.ops):
+                    need, operands = 'number', [n_.left] + list(n_.comparators)
+                elif isinstance(n_, ast.BinOp) and isinstance(n_.op, (ast.Add, ast.Sub, ast.Mult, ast.FloorDiv, ast.Div, ast.Mod, ast.LShift, ast.RShift)) \
+                        and not isinstance(n_.left, ast.Constant) or isinstance(n_, ast.BinOp) and isinstance(n_.op, (ast.Sub, ast.FloorDiv, ast.LShift, ast.RShift)):
+                    need, operands = 'number', [n_.left, n_.right]
+                elif isinstance(n_, ast.Call) and isinstance(n_.func, ast.Name) and n_.func.id == 'len' and n_.args:
+                    need, operands = 'sized', [n_.args[0]]
+                if need is None:
+                    continue
+                for o in operands:
+                    comp = ast.unparse(o)
+                    if comp not in admitted:
+                        continue
+                    n7 += 1
+                    ok_set = NUMERIC if need == 'number' else SIZED
+                    wrong = sorted(admitted[comp] - ok_set)
+                    ctx.instance('C12.R7', '%s: %s needs a %s; admitted %s' % (Model.qual(f7), ast.unparse(n_)[:60], need, sorted(admitted[comp])), 'ok' if not wrong else 'VIOLATION', node=n_, file=TC)
+                    if wrong:
+                        ctx.violation('C12.R7', TC, n_, Model.qual(f7),
+                                      'the type check admits %s for %s, but `%s` then needs a %s: a value of type %s passes the check and raises TypeError here -- a foreign exception '
+                                      'without the path instead of the encode error' % (sorted(admitted[comp]), comp, ast.unparse(n_)[:80], need, wrong[0]), stmt=norm_stmt(Model.enclosing_stmt(n_)))
+    if n7 == 0:
+        ctx.instance('C12.R7', 'type checker: no operation on a component guarded by a recognisable isinstance test', 'undecided', 'the checks are not written as isinstance(component, types) in the encode methods',
+                     nontrivial=False, file=TC)
+
     # ---- R2
     INIT = 'asn1tools/codecs/__init__.py'
     ewl = model.cls(INIT, 'ErrorWithLocation')
@@ -604,3 +681,6 @@ MUTANTS.append(dict(name='constraints checker walks only the members it consider
                     old="""        for member in self.members:
             name = member.name""", new="""        for member in [m for m in self.members if m.is_bound()]:
             name = member.name""", expect='C12.R6'))
+
+MUTANTS.append(dict(name='BIT STRING bit count may be a str (shared Integer type tuple)', file='asn1tools/codecs/type_checker.py',
+                    old="            or not isinstance(data[1], int)):", new="            or not isinstance(data[1], (int, str))):", expect='C12.R7'))
